@@ -54,6 +54,10 @@ class SimMemory:
         from cascade.executor.msg import DatasetPublished
         raw, deser_fun = serde.ser_output(outputValue, outputSchema)
         b = self.bridge
+        if b.incremental and b.emitting_for == self.worker:
+            # a generator yields over time: this output becomes visible (stored, announced) only when the model releases it
+            b.pending_out[self.worker].append((outputId, raw, deser_fun, isPublish))
+            return
         b.store[self.worker.host][outputId] = (raw, deser_fun)
         b.ever_produced.add(outputId)
         b.produced_at.setdefault(outputId, set()).add(self.worker.host)
@@ -89,6 +93,12 @@ class SimBridge:
         self.ever_produced: set = set()
         self.produced_at: dict = {}
         self.unfinished: dict = {w: 0 for w in env.workers}   # accepted sequences not finished
+        # incremental class: the outputs of a multi-output task appear one at a time, with arbitrary other actions (and controller
+        # rounds) in between -- the task is still running until its last output has been released
+        self.incremental = rng.random() < 0.4
+        self.pending_out: dict = {w: [] for w in env.workers}
+        self.pending_task: dict = {}
+        self.emitting_for = None
         self.transmit_cmds: dict = {}       # idx -> (ds, src, dst, answered)
         self.fetch_cmds: dict = {}          # idx -> (ds, src, answered)
         self.purges_issued: dict = {}       # (host, ds) -> True
@@ -214,8 +224,11 @@ class SimBridge:
         for i in range(len(self.payloads)):
             acts.append(("payload", i))
         for w, q in self.inbox.items():
-            if q and self.can_start(w, q[0]):
+            if q and self.can_start(w, q[0]) and not self.pending_out[w]:
                 acts.append(("run", w))
+        for w, pend in self.pending_out.items():
+            if pend:
+                acts.append(("emit", w))
         return acts
 
     def required(self, ts):
@@ -278,16 +291,33 @@ class SimBridge:
             ts = self.inbox[arg].popleft()
             mem = SimMemory(self, arg)
             ctx = self.rc[arg].project(ts)
+            slow = self.incremental and len(ts.tasks) == 1 and len(self.job.tasks[ts.tasks[0]].definition.output_schema) > 1
             for t in ts.tasks:
                 if t in self.executed:
                     self.V.add("C02", "task-executed-twice", f"task {t} executed a second time on {arg!r}")
+                self.emitting_for = arg if slow else None
                 try:
                     runner.run(t, ctx, mem)
                 except Exception as e:  # noqa: BLE001 -> the real worker reports TaskFailure, the bridge raises
                     self.task_failure = (t, e, traceback.format_exc()[-600:])
                     raise SimAbort(f"TaskFailure {t}: {e!r}")
+                finally:
+                    self.emitting_for = None
+                if slow and self.pending_out[arg]:
+                    self.pending_task[arg] = t      # still running: finished when its last output has been released
+                    return
                 self.executed.add(t)
             self.unfinished[arg] -= 1
+        elif kind == "emit":
+            outputId, raw, deser_fun, isPublish = self.pending_out[arg].pop(0)
+            self.store[arg.host][outputId] = (raw, deser_fun)
+            self.ever_produced.add(outputId)
+            self.produced_at.setdefault(outputId, set()).add(arg.host)
+            if isPublish:
+                self.enqueue_event(("w", arg), DatasetPublished(origin=arg, ds=outputId, transmit_idx=None))
+            if not self.pending_out[arg]:
+                self.executed.add(self.pending_task.pop(arg))
+                self.unfinished[arg] -= 1
         else:
             raise AssertionError(kind)
 
